@@ -383,5 +383,34 @@ Fixpoint plain (fuel : nat) (h : heap) (x : loc) : bool :=
 Definition structs_plain (h : heap) : bool :=
   forallb (fun x => match lookup h x with Some (OStruct _) => plain (S x) h x | _ => true end) (seq 0 (size h)).
 
+(* an instrumented copy of write_value that also keeps the structs that are open
+   on the recursion stack and stops when one is entered again: the detector of
+   exactly the shape that defeats writeValue's cycle path *)
+Inductive wres := WDone | WStructCycle | WBad | WOut.
+
+Fixpoint all_w {A : Type} (f : A -> wres) (xs : list A) : wres :=
+  match xs with
+  | [] => WDone
+  | x :: r => match f x with WDone => all_w f r | e => e end
+  end.
+
+Fixpoint wv_check (fuel : nat) (h : heap) (open path : list loc) (x : loc) : wres :=
+  match fuel with
+  | 0 => WOut
+  | S f =>
+    match lookup h x with
+    | None => WBad
+    | Some o =>
+      match o with
+      | ONone | OInt _ | OSet _ | OFunc _ _ | OBuiltin _ => WDone
+      | OList es => if memb x path then WDone else all_w (wv_check f h open (x :: path)) es
+      | OTuple es => all_w (wv_check f h open path) es
+      | ODict items => if memb x path then WDone else all_w (wv_check f h open (x :: path)) (map snd items)
+      | OStruct fs => if memb x open then WStructCycle else all_w (wv_check f h (x :: open) []) (map snd fs)
+      end
+    end
+  end.
+
 (* fuel bounds, functions of the size of the heap only *)
+Definition cube_bound (h : heap) : nat := (size h + 2) * (size h + 2) * (size h + 2).
 Definition sq_bound (h : heap) : nat := (size h + 1) * (size h + 1).
